@@ -13,6 +13,8 @@ pub mod pre {
     pub trait Buf: Sized {
         spec fn bytes(&self) -> Seq<u8>;
         fn remaining(&self) -> (r: usize) ensures r == self.bytes().len();
+        /// `chunk()`: SOME non-empty prefix of the remaining bytes (the whole of them only for contiguous buffers).
+        fn chunk(&self) -> (r: &[u8]) ensures r@.len() <= self.bytes().len(), self.bytes().len() > 0 ==> r@.len() > 0, r@ =~= self.bytes().subrange(0, r@.len() as int);
         /// `has_remaining()`: `remaining() > 0` (bytes::Buf's provided method).
         fn has_remaining(&self) -> (r: bool) ensures r == (self.bytes().len() > 0);
     }
